@@ -117,6 +117,9 @@ def remove (t : Trie) (pattern : String) : Trie × Bool :=
   ({ root := r.1, size := if r.2 then t.size - 1 else t.size }, r.2)
 
 def matchTopic (t : Trie) (topic : String) : List String := matchLevel t.root (splitTopic topic)
+
+/-- `for pattern := range patterns { trie.Remove(pattern) }` -/
+def removeAll (t : Trie) (ps : List String) : Trie := ps.foldl (fun t p => (t.remove p).1) t
 end Trie
 
 /-- reference count stored at a path (the abstraction: a multiset of segment lists) -/
